@@ -409,14 +409,125 @@ impl Prop for GoalProp {
     }
 }
 
+// ---------------------------------------------------------------------------------------------
+// (3) real solutions of generated pragmatic problems under the problem's own goal
+// ---------------------------------------------------------------------------------------------
+
+#[derive(Clone, Debug, Serialize, Deserialize)]
+pub struct RealCase {
+    pub spec: super::pgen::ProblemSpec,
+    pub seed: u64,
+    /// construction recipes: (recreate kind, ruin kind or 255 for none)
+    pub recipes: Vec<(u8, u8)>,
+}
+
+pub struct RealProp;
+
+impl Prop for RealProp {
+    type Case = RealCase;
+    fn name(&self) -> &'static str {
+        "goal_on_real_solutions"
+    }
+    fn strategy(&self, tier: Tier) -> BoxedStrategy<RealCase> {
+        (super::pgen::problem_spec(tier.pick(10, 20)), any::<u64>(), prop::collection::vec((0u8..11, prop_oneof![Just(255u8), 0u8..9]), 3..=5)).prop_map(|(spec, seed, recipes)| RealCase { spec, seed, recipes }).boxed()
+    }
+    fn cases(&self, tier: Tier) -> u32 {
+        tier.pick(1_500, 40_000)
+    }
+    fn shards(&self, _tier: Tier) -> u32 {
+        16
+    }
+    fn max_shrink_iters(&self) -> u32 {
+        100
+    }
+    fn check(&self, c: &RealCase, stats: &Stats) -> Check {
+        use rosomaxa::evolution::TelemetryMode;
+        use rosomaxa::utils::{Parallelism, ThreadPool};
+        use vrp_core::solver::search::{Recreate, Ruin};
+        use vrp_core::solver::{RefinementContext, create_elitism_population};
+        let rendered = super::pgen::render(&c.spec);
+        let core = super::e2e::read_core(&rendered.problem, &rendered.matrices).map_err(|e| Failure::new("harness:generator-invalid", format!("generated problem was rejected: {e}")))?;
+        let single_layers = !rendered.problem.objectives.iter().flatten().any(|o| matches!(o, vrp_pragmatic::format::problem::Objective::MultiObjective { .. }));
+        let pool = ThreadPool::new(1);
+        let solutions: Vec<InsertionContext> = pool.execute(|| {
+            let env = quiet_env(c.seed, Parallelism::new(1, 1), None);
+            let rctx = RefinementContext::new(core.clone(), Box::new(create_elitism_population(core.goal.clone(), env.clone())), TelemetryMode::None, env.clone());
+            c.recipes
+                .iter()
+                .map(|(recreate, ruin)| {
+                    let first = super::ops::make_recreate(*recreate, env.random.clone()).run(&rctx, InsertionContext::new(core.clone(), env.clone()));
+                    if *ruin == 255 {
+                        first
+                    } else {
+                        let ruined = super::ops::make_ruin(*ruin, &core).run(&rctx, first);
+                        super::ops::make_recreate(recreate.wrapping_add(3), env.random.clone()).run(&rctx, ruined)
+                    }
+                })
+                .collect()
+        });
+        let goal = core.goal.clone();
+        let fit: Vec<Vec<f64>> = solutions.iter().map(|s| goal.fitness(s).collect()).collect();
+        let lex = |a: &[f64], b: &[f64]| -> Ordering {
+            for (x, y) in a.iter().zip(b.iter()) {
+                // +0 and -0 are equal
+                if x < y {
+                    return Ordering::Less;
+                }
+                if x > y {
+                    return Ordering::Greater;
+                }
+            }
+            Ordering::Equal
+        };
+        let n = solutions.len();
+        for i in 0..n {
+            stats.eval();
+            ensure!(goal.total_order(&solutions[i], &solutions[i]) == Ordering::Equal, "goal:real:reflexivity", "solution {i} does not compare Equal with itself, fitness {:?}", fit[i]);
+            for j in 0..n {
+                let ab = goal.total_order(&solutions[i], &solutions[j]);
+                let ba = goal.total_order(&solutions[j], &solutions[i]);
+                ensure!(ab == ba.reverse(), "goal:real:antisymmetry", "cmp(a,b)={ab:?} but cmp(b,a)={ba:?}; fitness a {:?} b {:?}", fit[i], fit[j]);
+                if single_layers && fit[i].iter().chain(fit[j].iter()).all(|x| x.is_finite()) {
+                    let spec = lex(&fit[i], &fit[j]);
+                    ensure!(ab == spec, "goal:real:not-lexicographic", "cmp(a,b)={ab:?}, lexicographic comparison of the fitness vectors gives {spec:?}; fitness a {:?} b {:?}; objectives {:?}", fit[i], fit[j], rendered.problem.objectives);
+                    if let Some(k) = fit[i].iter().zip(fit[j].iter()).position(|(x, y)| x != y) {
+                        if k >= 1 {
+                            stats.class("real.decided_after_first_layer");
+                            stats.nontrivial(mix(hash_of(&format!("{c:?}")), (i * 8 + j) as u64));
+                        }
+                    }
+                }
+                for k in 0..n {
+                    if single_layers {
+                        let bc = goal.total_order(&solutions[j], &solutions[k]);
+                        let ac = goal.total_order(&solutions[i], &solutions[k]);
+                        if ab != Ordering::Greater && bc != Ordering::Greater {
+                            ensure!(ac != Ordering::Greater, "goal:real:transitivity", "a<=b and b<=c but a>c; fitness {:?} {:?} {:?}", fit[i], fit[j], fit[k]);
+                        }
+                    }
+                }
+            }
+        }
+        stats.class(if single_layers { "real.single_layers_only" } else { "real.with_multi_objective_layer" });
+        if fit.iter().any(|f| f != &fit[0]) {
+            stats.class("real.solutions_with_different_fitness");
+        }
+        if rendered.problem.objectives.is_some() {
+            stats.class("real.explicit_objectives");
+        }
+        stats.sample(1, || json!({"kind": "goal_on_real_solutions", "objectives": rendered.problem.objectives, "fitness": fit}));
+        Ok(())
+    }
+}
+
 pub fn property(_tier: Tier) -> PropertyDef {
     PropertyDef {
         id: "C09",
         level: "exploration",
-        rule: "proptest triples: (1) InsertionCost vectors of length 0-8 over {+-0, denormals, +-1, small ints/halves, +-1e300, +-MAX} with shared prefixes, checked for reflexivity, antisymmetry, transitivity, agreement with numeric lexicographic comparison with zero padding, Eq/PartialOrd consistency, sort, and add/sub inverse on exactly representable operands; (2) goals built with the public GoalBuilder (1-5 layers, add_single and dominance add_multi as the pragmatic reader installs) over synthetic solutions carrying an injected fitness vector: reflexive, antisymmetric; for single-layer goals transitive and equal to lexicographic comparison of fitness() with +0==-0; (3) real solutions of generated pragmatic problems compared under the problem goal and its alternative goals. Non-trivial: a compared pair differs first at index >=1, or has different lengths, or involves a zero. Distinct by case hash.",
+        rule: "proptest triples: (1) InsertionCost vectors of length 0-8 over {+-0, denormals, +-1, small ints/halves, +-1e300, +-MAX} with shared prefixes, checked for reflexivity, antisymmetry, transitivity, agreement with numeric lexicographic comparison with zero padding, Eq/PartialOrd consistency, sort, and add/sub inverse on exactly representable operands; (2) goals built with the public GoalBuilder (1-5 layers, add_single and dominance add_multi as the pragmatic reader installs) over synthetic solutions carrying an injected fitness vector: reflexive, antisymmetric; for single-layer goals transitive and equal to lexicographic comparison of fitness() with +0==-0; (3) real solutions: 3-5 solutions of a generated pragmatic problem (pgen, all objective lists incl. balance, multi-objective and default) built by different recreate methods, optionally followed by a ruin and another recreate, are compared pairwise and in triples under the problem's own goal: reflexive, antisymmetric; when the goal has single layers only, transitive and equal to the lexicographic comparison of GoalContext::fitness. Non-trivial: a compared pair differs first at index >=1, or has different lengths, or involves a zero. Distinct by case hash.",
         assumptions: vec!["NaN/inf excluded (properties say finite; C18 guards that objectives yield finite values)"],
-        props: vec![Box::new(CostProp), Box::new(GoalProp)],
+        props: vec![Box::new(CostProp), Box::new(GoalProp), Box::new(RealProp)],
         extra: None,
-        required_classes: vec!["cost.beyond_inline_slots", "cost.different_lengths", "cost.differs_after_first", "cost.negative_zero", "goal.single_layers_only", "goal.with_dominance_layer", "goal.decided_after_first_layer", "goal.negative_zero"],
+        required_classes: vec!["cost.beyond_inline_slots", "cost.different_lengths", "cost.differs_after_first", "cost.negative_zero", "goal.single_layers_only", "goal.with_dominance_layer", "goal.decided_after_first_layer", "goal.negative_zero", "real.single_layers_only", "real.with_multi_objective_layer", "real.solutions_with_different_fitness", "real.decided_after_first_layer"],
     }
 }
